@@ -128,7 +128,7 @@ int _vnacal_new_solve_simple(vnacal_new_solve_state_t *vnssp,
 		_vnacal_error(vcp, VNAERR_MATH, "vnacal_new_solve: "
 			"insufficient number of standards to solve "
 			"error terms");
-		return -1;
+		goto out;
 	    }
 	    if (equations == unknowns) {
 		double complex determinant;
@@ -138,7 +138,7 @@ int _vnacal_new_solve_simple(vnacal_new_solve_state_t *vnssp,
 		if (determinant == 0.0 || !isnormal(cabs(determinant))) {
 		    _vnacal_error(vcp, VNAERR_MATH, "vnacal_new_solve: "
 			    "singular linear system");
-		    return -1;
+		    goto out;
 		}
 	    } else {
 		int rank;
@@ -148,7 +148,7 @@ int _vnacal_new_solve_simple(vnacal_new_solve_state_t *vnssp,
 		if (rank < unknowns) {
 		    _vnacal_error(vcp, VNAERR_MATH, "vnacal_new_solve: "
 			    "singular linear system");
-		    return -1;
+		    goto out;
 		}
 	    }
 	    /*
@@ -165,7 +165,7 @@ int _vnacal_new_solve_simple(vnacal_new_solve_state_t *vnssp,
 	     */
 	    if (vs_update_v_matrices("vnacal_new_solve", vnssp, sindex,
 			&x_vector[offset], unknowns) == -1) {
-		return -1;
+		goto out;
 	    }
 	    sum_dx_squared = 0.0;
 	    for (int i = 0; i < x_length; ++i) {
